@@ -78,7 +78,9 @@ SetBaseLevels(g, bl, back, line) ==
 SetParam(g, i, e) ==
   /\ g \in DOMAIN graphs
   /\ graphs' = [graphs EXCEPT ![g].ops[i + 1] =
-                   IF @.k = "multi" THEN [@ EXCEPT !.p = e.p] ELSE [@ EXCEPT !.r = e.r]]
+                   IF @.k = "multi" THEN [@ EXCEPT !.p = e.p]
+                   ELSE [@ EXCEPT !.r = IF "r" \in DOMAIN e THEN e.r ELSE @,
+                                  !.m = IF "m" \in DOMAIN e THEN e.m ELSE @]]
   /\ UNCHANGED <<grid, memo>>
 
 -----------------------------------------------------------------------------
